@@ -46,16 +46,47 @@ func safeFloatToDec(f float64) decimal.Decimal {
 	return decimal.NewFromFloat(f)
 }
 
+// narrowInt64 returns the value as int32 if it fits and as int64 otherwise
+// (a 32-bit result that overflows is promoted to 64 bits).
+func narrowInt64(v int64) interface{} {
+	if v >= math.MinInt32 && v <= math.MaxInt32 {
+		return int32(v)
+	}
+	return v
+}
+
+// addInt64 returns the sum or Missing if it overflows.
+func addInt64(a, b int64) interface{} {
+	c := a + b
+	if (c > a) == (b > 0) {
+		return c
+	}
+	return Missing
+}
+
+// mulInt64 returns the product or Missing if it overflows.
+func mulInt64(a, b int64) interface{} {
+	if a == 0 || b == 0 {
+		return int64(0)
+	}
+	c := a * b
+	if c/b != a || (a == -1 && b == math.MinInt64) || (b == -1 && a == math.MinInt64) {
+		return Missing
+	}
+	return c
+}
+
 // Add will add together two numerical values. It accepts and returns int32,
-// int64, float64 and decimal128.
+// int64, float64 and decimal128. The sum of two int32 values is promoted to
+// int64 if it does not fit; Missing is returned if a 64-bit sum overflows.
 func Add(num, inc interface{}) interface{} {
 	switch num := num.(type) {
 	case int32:
 		switch inc := inc.(type) {
 		case int32:
-			return num + inc
+			return narrowInt64(int64(num) + int64(inc))
 		case int64:
-			return int64(num) + inc
+			return addInt64(int64(num), inc)
 		case float64:
 			return float64(num) + inc
 		case primitive.Decimal128:
@@ -66,9 +97,9 @@ func Add(num, inc interface{}) interface{} {
 	case int64:
 		switch inc := inc.(type) {
 		case int32:
-			return num + int64(inc)
+			return addInt64(num, int64(inc))
 		case int64:
-			return num + inc
+			return addInt64(num, inc)
 		case float64:
 			return float64(num) + inc
 		case primitive.Decimal128:
@@ -108,15 +139,16 @@ func Add(num, inc interface{}) interface{} {
 }
 
 // Mul will multiply the two numerical values. It accepts and returns int32,
-// int64, float64 and decimal128.
+// int64, float64 and decimal128. The product of two int32 values is promoted to
+// int64 if it does not fit; Missing is returned if a 64-bit product overflows.
 func Mul(num, mul interface{}) interface{} {
 	switch num := num.(type) {
 	case int32:
 		switch mul := mul.(type) {
 		case int32:
-			return num * mul
+			return narrowInt64(int64(num) * int64(mul))
 		case int64:
-			return int64(num) * mul
+			return mulInt64(int64(num), mul)
 		case float64:
 			return float64(num) * mul
 		case primitive.Decimal128:
@@ -127,9 +159,9 @@ func Mul(num, mul interface{}) interface{} {
 	case int64:
 		switch mul := mul.(type) {
 		case int32:
-			return num * int64(mul)
+			return mulInt64(num, int64(mul))
 		case int64:
-			return num * mul
+			return mulInt64(num, mul)
 		case float64:
 			return float64(num) * mul
 		case primitive.Decimal128:
